@@ -1,4 +1,4 @@
-import PvlModel.Lemmas.ParserSpecs2
+import PvlModel.Lemmas.ParseSpec
 
 /-!
 # C06 — loaders terminate and fail only with the documented error types
@@ -21,31 +21,16 @@ correspondence run (the real loader under a 2 s guard vs the model's `HANG`) —
 namespace Pvl
 open P
 
-/-- the initial generator state of a `parse()` call satisfies the invariant -/
-theorem inv_initial (toks : List Token) (tail : Tail) :
-    P.Inv (⟨⟨toks, tail, none, none, false⟩, [], [], none, false⟩ : PSt) := by
-  simp [P.Inv]
-
 /-- **C06, error types** -/
 theorem C06_errors (g : Grammar) (d : Dec) (kind : ParserKind) (prior : List Int) (text : Str) (e : PErr)
     (h : (parseWith g d kind prior text).outcome = .error e) :
     e.isLexer = true ∨ (∃ t, e = .parse t) ∨ e = .fuel := by
-  unfold parseWith at h
-  simp only at h
-  generalize hdoc : (if kind == ParserKind.omni then omniPrepass text else text) = doc at h
-  generalize hl : lexAll g d doc = lx at h
-  obtain ⟨toks, tail⟩ := lx
-  simp only at h
-  have hs := triple_elim _ _ _ _ (moduleLoop_spec ⟨g, d, kind, doc⟩ (fuelFor (toks.length + 2)) [])
-    ⟨⟨toks, tail, none, none, false⟩, [], [], none, false⟩ (inv_initial toks tail)
-  revert hs h
-  generalize (moduleLoop ⟨g, d, kind, doc⟩ [] (fuelFor (toks.length + 2))).run.run
-    ⟨⟨toks, tail, none, none, false⟩, [], [], none, false⟩ = res
-  obtain ⟨r, st'⟩ := res
-  intro h hs
-  simp only at h
-  subst h
-  exact hs
+  have := parse_spec g d kind prior text
+  rw [h] at this
+  rcases this with h1 | ⟨h2, _⟩ | h3
+  · exact Or.inl h1
+  · exact Or.inr (Or.inl h2)
+  · exact Or.inr (Or.inr h3)
 
 /-- the undocumented exception kinds, spelled out -/
 theorem C06_no_leak (g : Grammar) (d : Dec) (kind : ParserKind) (prior : List Int) (text : Str) :
